@@ -15,8 +15,16 @@
 (* State: kind  sequence indexed by clock id in allocation order:          *)
 (*              "int" (steered clock; id 1 is the system clock), "ext"     *)
 (*              (external clock), "gone" (removed)                         *)
-(*        links set of [a, b, k, cold]: a < b clock ids, k "tracked" |     *)
-(*              "untracked", cold = no measurement has been fed yet        *)
+(*        links set of [a, b, k, cold, act]: a < b clock ids, k "tracked"  *)
+(*              | "untracked", cold = no measurement has been fed yet,     *)
+(*              act = the environment has driven this tracked link to      *)
+(*              ACTIVE (>= 4 completed round trips while its steered end   *)
+(*              points were frequency-steered, plus consensus for links to *)
+(*              an external clock: filter.rs measurement), so that its     *)
+(*              delay occupies a row of the estimator state in front of    *)
+(*              every clock created afterwards.  act is a coverage device  *)
+(*              (the real link may lose activity again; the harness        *)
+(*              reports the real activity with every AddClock).            *)
 (*        hot   clocks that took part in measurements (their estimates     *)
 (*              are seeded: distinguishable from every other clock's)      *)
 (* Ids above Len(kind) stand for identifiers unknown to the controller.    *)
@@ -25,6 +33,7 @@ EXTENDS Naturals, Sequences, FiniteSets, TLC
 
 CONSTANTS MaxIds,    \* clock identifiers ever allocated (incl. the system clock)
           MaxInt,    \* steered clocks alive at a time
+          MaxExt,    \* external clocks alive at a time
           MaxLinks   \* links alive at a time
 
 Ids == 1..(MaxIds + 1)                       \* MaxIds + 1 is never allocated
@@ -48,6 +57,11 @@ Linked(s, a, b) == \E l \in s.links : l.a = Lo(a, b) /\ l.b = Hi(a, b)
 (*  AddLink      filter.rs add_tracked_link / add_untracked_link           *)
 (*  Back         a measurement while the system clock reads earlier than   *)
 (*               the estimator's time: estimator.rs progress_time          *)
+(*  Activate     measurements over a tracked link until it is active       *)
+(*  Steer        one measurement over a fresh (temporary) tracked link     *)
+(*               between the system clock and clock x: such a link has no  *)
+(*               delay estimate yet, so filter.rs measurement returns      *)
+(*               early and only lib.rs steer_clocks runs                   *)
 (***************************************************************************)
 Res(s, a) ==
   CASE a.t = "RemoveClock" -> IF a.x = 1 THEN "CannotRemoveSystemClock"
@@ -62,11 +76,12 @@ Res(s, a) ==
 
 Enabled(s, a) ==
   CASE a.t = "AddClock" -> Len(s.kind) < MaxIds /\ Cardinality(Live(s)) < MaxInt
-    [] a.t = "AddExt" -> Len(s.kind) < MaxIds /\ ~\E x \in 1..Len(s.kind) : s.kind[x] = "ext"
+    [] a.t = "AddExt" -> Len(s.kind) < MaxIds /\ Cardinality({x \in 1..Len(s.kind) : s.kind[x] = "ext"}) < MaxExt
     [] a.t = "RemoveExt" -> ~(IsExt(s, a.x) /\ InUse(s, a.x))    \* removing an external clock that is in use: not specified
     [] a.t = "AddLink" -> IF Res(s, a) = "ok" THEN Cardinality(s.links) < MaxLinks /\ ~Linked(s, a.a, a.b) ELSE TRUE
     [] a.t \in {"RemoveLink", "Measure", "Back"} -> a.l \in s.links
-    [] a.t = "Steer" -> a.l \in s.links /\ a.l.k = "tracked" /\ a.l.cold
+    [] a.t = "Activate" -> a.l \in s.links /\ a.l.k = "tracked" /\ ~a.l.act
+    [] a.t = "Steer" -> a.x # 1 /\ Known(s, a.x)
     [] OTHER -> TRUE
 
 Post(s, a) ==
@@ -74,10 +89,12 @@ Post(s, a) ==
   ELSE CASE a.t = "AddClock" -> [s EXCEPT !.kind = Append(@, "int")]
          [] a.t = "AddExt" -> [s EXCEPT !.kind = Append(@, "ext")]
          [] a.t \in {"RemoveClock", "RemoveExt"} -> [s EXCEPT !.kind[a.x] = "gone", !.hot = @ \ {a.x}]
-         [] a.t = "AddLink" -> [s EXCEPT !.links = @ \cup {[a |-> Lo(a.a, a.b), b |-> Hi(a.a, a.b), k |-> a.k, cold |-> TRUE]}]
+         [] a.t = "AddLink" -> [s EXCEPT !.links = @ \cup {[a |-> Lo(a.a, a.b), b |-> Hi(a.a, a.b), k |-> a.k, cold |-> TRUE, act |-> FALSE]}]
          [] a.t = "RemoveLink" -> [s EXCEPT !.links = @ \ {a.l}]
          [] a.t = "Measure" -> [s EXCEPT !.links = (@ \ {a.l}) \cup {[a.l EXCEPT !.cold = FALSE]},
                                          !.hot = @ \cup ({a.l.a, a.l.b} \cap Live(s))]
+         [] a.t = "Activate" -> [s EXCEPT !.links = (@ \ {a.l}) \cup {[a.l EXCEPT !.cold = FALSE, !.act = TRUE]},
+                                          !.hot = @ \cup ({a.l.a, a.l.b} \cap Live(s))]
          [] OTHER -> s                                                 \* Steer
 
 (***************************************************************************)
@@ -92,7 +109,7 @@ Target(a) == CASE a.t \in {"RemoveClock", "RemoveExt"} -> {a.x}
                [] OTHER -> {}
 Same(s, a) ==
   IF Res(s, a) # "ok" THEN Live(s)
-  ELSE IF a.t \in {"Measure", "Steer"} THEN {}
+  ELSE IF a.t \in {"Measure", "Activate", "Steer"} THEN {}
   ELSE (Live(s) \cap Live(Post(s, a))) \ Target(a)
 
 Out(s, a) == [res |-> Res(s, a), same |-> Same(s, a), live |-> Live(Post(s, a)),
@@ -119,7 +136,7 @@ C42_Step(s, a) ==
 (*         frequency estimate (0 +- that clock's max frequency), not the   *)
 (*         offset estimate (0 +- 1e18)                                     *)
 (*  fmax   every set_frequency on a clock is within its max frequency      *)
-(*  dstep / dfreq   on a pure steering step (Steer: the link is cold, so   *)
+(*  dstep / dfreq   on a pure steering step (Steer: the link is fresh, so  *)
 (*         the measurement itself does not touch the estimates) the offset *)
 (*         (frequency) estimate of every steered clock moves by the step   *)
 (*         (frequency change) applied to that clock (+ the deterministic   *)
@@ -127,7 +144,7 @@ C42_Step(s, a) ==
 (***************************************************************************)
 ConeKey(s, a) == IF Res(s, a) # "ok" THEN "fail"
                  ELSE IF a.t \in Bookkeeping THEN (IF a.t = "AddClock" THEN "addclock" ELSE "book")
-                 ELSE IF a.t = "Measure" THEN "measure" ELSE "steer"
+                 ELSE IF a.t \in {"Measure", "Activate"} THEN "measure" ELSE "steer"
 ConesOf(k) ==
   CASE k = "fail"     -> [C42 |-> {"panic", "out.res", "out.same"}, C43 |-> {}]
     [] k = "book"     -> [C42 |-> {"panic", "out.same"}, C43 |-> {}]
